@@ -593,6 +593,146 @@ pub fn c11_case(dir: &Path, progs: &[Vec<Req>], order: &[usize], mfs: u64, merge
     Ok(o)
 }
 
+/// C11 with the operations parked at EVERY hook point inside the store (before the writer lock and
+/// before each KeyDir shard access), on the blocking-pool threads of the real server. A client's
+/// events: enter, continue (up to 3, a "continue" that can not be taken is a no-op), return+reply.
+/// `preset`: key k already holds "0" (overwrites and deletes of an existing key).
+pub fn c11_case_all(dir: &Path, progs: &[Vec<Req>], order: &[usize], preset: bool) -> Result<String, V> {
+    let srv = Srv::start(dir, &SrvCfg { max_connections: 8, max_file_size: 1 << 31, gated: true }).map_err(mach)?;
+    bitcask::verif::set_hook(crate::e5::inner_gate_hook);
+    srv.gate.set_inner_all(true);
+    let nc = progs.len();
+    let mut init = Kv::new();
+    let r = (|| -> Result<String, V> {
+        if preset {
+            srv.handle.set(Bytes::from_static(b"k"), Bytes::from_static(b"0")).map_err(|e| mach(e.to_string()))?;
+            init.insert(b"k".to_vec(), b"0".to_vec());
+        }
+        let mut socks: Vec<TcpStream> = vec![];
+        let mut next_cmd = vec![0usize; nc];
+        let mut cur_op: Vec<Option<usize>> = vec![None; nc];
+        let mut phase = vec![0u8; nc];
+        let mut client_events: Vec<LEvent> = vec![];
+        let mut client_inv: Vec<u64> = vec![0; nc];
+        let mut replies: Vec<(usize, usize, RFrame)> = vec![];
+        for _ in 0..nc {
+            socks.push(srv.connect().map_err(|e| mach(format!("connect: {}", e)))?);
+        }
+        let send_next = |c: usize, socks: &mut Vec<TcpStream>, next_cmd: &mut Vec<usize>, cur_op: &mut Vec<Option<usize>>, client_inv: &mut Vec<u64>| -> Result<(), V> {
+            if next_cmd[c] < progs[c].len() {
+                let before = srv.gate.n_ops();
+                client_inv[c] = SEQ.fetch_add(1, Ordering::SeqCst);
+                socks[c].write_all(&progs[c][next_cmd[c]].encode()).map_err(|e| mach(e.to_string()))?;
+                if !srv.gate.wait_arrivals(before + 1, T20) {
+                    return Err(("command-never-reaches-the-store".into(), format!("client {} sent {} but it did not arrive at the store within 6 s", c, progs[c][next_cmd[c]].show())));
+                }
+                cur_op[c] = Some(before);
+                next_cmd[c] += 1;
+            } else {
+                cur_op[c] = None;
+            }
+            Ok(())
+        };
+        for c in 0..nc {
+            send_next(c, &mut socks, &mut next_cmd, &mut cur_op, &mut client_inv)?;
+        }
+        // one step of client c; Ok(true) if something happened
+        let mut step = |c: usize, socks: &mut Vec<TcpStream>, next_cmd: &mut Vec<usize>, cur_op: &mut Vec<Option<usize>>, client_inv: &mut Vec<u64>, phase: &mut Vec<u8>, client_events: &mut Vec<LEvent>, replies: &mut Vec<(usize, usize, RFrame)>| -> Result<bool, V> {
+            let Some(op) = cur_op[c] else { return Ok(false) };
+            match phase[c] {
+                0 => {
+                    srv.gate.release_before(op);
+                    match srv.gate.wait_done_or_inner(op, T20) {
+                        None => return Err(("store-call-hangs".into(), format!("operation {} neither finished nor reached a hook point within 6 s", op))),
+                        Some(true) => phase[c] = 1,
+                        Some(false) => phase[c] = 2,
+                    }
+                    Ok(true)
+                }
+                1 => {
+                    if !srv.gate.continue_inner(op) {
+                        return Ok(false);
+                    }
+                    match srv.gate.wait_done_or_inner(op, T20) {
+                        None => return Err(("store-call-hangs".into(), format!("operation {} neither finished nor reached its next hook point within 6 s", op))),
+                        Some(true) => {}
+                        Some(false) => phase[c] = 2,
+                    }
+                    Ok(true)
+                }
+                _ => {
+                    let (b, eof, err) = try_read(&mut socks[c]);
+                    if !b.is_empty() || eof || err.is_some() {
+                        return Err(("reply-before-the-command-returned".into(), format!("client {} got {:?} (eof {} err {:?}) while its command is held after the store call", c, String::from_utf8_lossy(&b), eof, err)));
+                    }
+                    srv.gate.release_after(op);
+                    let f = match read_frame(&mut socks[c], T20) {
+                        Ok((f, _)) => f,
+                        Err(e) => return Err(("reply-missing".into(), format!("client {} op {}: {}", c, op, e))),
+                    };
+                    let ret = SEQ.fetch_add(1, Ordering::SeqCst);
+                    let rec = srv.gate.snapshot()[op].clone();
+                    client_events.push(LEvent { op: rec.lop.clone(), res: frame_lres(&f, &rec.lop), inv: client_inv[c], ret });
+                    replies.push((c, op, f));
+                    phase[c] = 0;
+                    send_next(c, socks, next_cmd, cur_op, client_inv)?;
+                    Ok(true)
+                }
+            }
+        };
+        for &c in order {
+            step(c, &mut socks, &mut next_cmd, &mut cur_op, &mut client_inv, &mut phase, &mut client_events, &mut replies)?;
+        }
+        // drain what the no-op events left over, round robin
+        loop {
+            if cur_op.iter().all(|o| o.is_none()) {
+                break;
+            }
+            let mut progress = false;
+            for c in 0..nc {
+                progress |= step(c, &mut socks, &mut next_cmd, &mut cur_op, &mut client_inv, &mut phase, &mut client_events, &mut replies)?;
+            }
+            if !progress {
+                return Err(("deadlock".into(), format!("no client can make a step: phases {:?}, operations {:?}", phase, cur_op)));
+            }
+        }
+        for (c, s) in socks.iter_mut().enumerate() {
+            s.shutdown(NetShutdown::Write).ok();
+            let (b, how) = read_to_end(s, T20);
+            if !b.is_empty() || how == "timeout" {
+                return Err(("extra-reply".into(), format!("client {} received {:?} ({}) after its last reply", c, String::from_utf8_lossy(&b), how)));
+            }
+        }
+        let ops = srv.gate.snapshot();
+        let total: usize = progs.iter().map(|p| p.len()).sum();
+        if ops.len() != total || replies.len() != total {
+            return Err(("reply-count".into(), format!("{} commands reached the store and {} replies arrived for {} requests", ops.len(), replies.len(), total)));
+        }
+        for (c, op, f) in &replies {
+            let want = ops[*op].result.as_ref().and_then(lres_frame);
+            if want.as_ref() != Some(f) {
+                return Err(("reply-differs-from-the-store-result".into(), format!("client {} op {} ({}) store returned {:?}, reply is {:?}", c, op, ops[*op].desc, ops[*op].result, f)));
+            }
+        }
+        let store_events: Vec<LEvent> = ops.iter().map(|o| LEvent { op: o.lop.clone(), res: o.result.clone().unwrap_or(LRes::Pending), inv: o.entered, ret: o.exited }).collect();
+        if linearizable(&init, &store_events).is_none() {
+            return Err(("store-history-not-linearizable".into(), format!("{}{:?}", if preset { "initially k = '0'; " } else { "" }, ops.iter().map(|o| format!("{} -> {:?} [{}..{}]", o.desc, o.result, o.entered, o.exited)).collect::<Vec<_>>())));
+        }
+        if linearizable(&init, &client_events).is_none() {
+            return Err(("client-history-not-linearizable".into(), format!("{}{:?}", if preset { "initially k = '0'; " } else { "" }, client_events.iter().map(|e| format!("{:?} -> {:?} [{}..{}]", e.op, e.res, e.inv, e.ret)).collect::<Vec<_>>())));
+        }
+        // the store ends in a state some linearization explains
+        Ok(replies.iter().map(|(c, _, f)| format!("c{}:{}", c, String::from_utf8_lossy(&enc(f)).trim_end())).collect::<Vec<_>>().join(" "))
+    })();
+    srv.gate.release_all();
+    let stopped = srv.stop();
+    let o = r?;
+    if !stopped {
+        return Err(mach("server did not stop"));
+    }
+    Ok(o)
+}
+
 fn frame_lres(f: &RFrame, op: &LOp) -> LRes {
     match (f, op) {
         (RFrame::Simple(s), LOp::Set(..)) if s == b"OK" => LRes::Unit,
@@ -622,14 +762,14 @@ fn programs(alpha: &[Req], maxlen: usize) -> Vec<Vec<Req>> {
     out
 }
 
-fn c11_cases(tier: Tier) -> Vec<(Vec<Vec<Req>>, Vec<usize>, u64, bool, bool)> {
+fn c11_cases(tier: Tier) -> Vec<(Vec<Vec<Req>>, Vec<usize>, u64, bool, u8)> {
     let mut cases = vec![];
     // 2 clients x <=2 commands over the reduced alphabet (quick) / full alphabet (thorough)
     let p2 = programs(&c11_alphabet(true), 2);
     for a in &p2 {
         for b in &p2 {
             for ord in interleavings(&[a.len() * 2, b.len() * 2]) {
-                cases.push((vec![a.clone(), b.clone()], ord, 1u64 << 31, false, false));
+                cases.push((vec![a.clone(), b.clone()], ord, 1u64 << 31, false, 0));
             }
         }
     }
@@ -639,7 +779,7 @@ fn c11_cases(tier: Tier) -> Vec<(Vec<Vec<Req>>, Vec<usize>, u64, bool, bool)> {
         for b in &p1 {
             for c in &p1 {
                 for ord in interleavings(&[2, 2, 2]) {
-                    cases.push((vec![a.clone(), b.clone(), c.clone()], ord, 1u64 << 31, false, false));
+                    cases.push((vec![a.clone(), b.clone(), c.clone()], ord, 1u64 << 31, false, 0));
                 }
             }
         }
@@ -649,7 +789,7 @@ fn c11_cases(tier: Tier) -> Vec<(Vec<Vec<Req>>, Vec<usize>, u64, bool, bool)> {
     for a in &pm {
         for b in &pm {
             for ord in interleavings(&[a.len() * 2, b.len() * 2]) {
-                cases.push((vec![a.clone(), b.clone()], ord, 0, true, false));
+                cases.push((vec![a.clone(), b.clone()], ord, 0, true, 0));
             }
         }
     }
@@ -669,7 +809,7 @@ fn c11_cases(tier: Tier) -> Vec<(Vec<Vec<Req>>, Vec<usize>, u64, bool, bool)> {
             continue;
         }
         for ord in interleavings(&[ev(x), ev(y)]) {
-            cases.push((vec![x.clone(), y.clone()], ord, 1u64 << 31, false, true));
+            cases.push((vec![x.clone(), y.clone()], ord, 1u64 << 31, false, 1));
         }
     }
     // three writers of one key, one command each
@@ -678,7 +818,7 @@ fn c11_cases(tier: Tier) -> Vec<(Vec<Vec<Req>>, Vec<usize>, u64, bool, bool)> {
         for b in &pw {
             for c in &pw {
                 for ord in interleavings(&[3, 3, 3]) {
-                    cases.push((vec![a.clone(), b.clone(), c.clone()], ord, 1u64 << 31, false, true));
+                    cases.push((vec![a.clone(), b.clone(), c.clone()], ord, 1u64 << 31, false, 1));
                 }
             }
         }
@@ -691,7 +831,32 @@ fn c11_cases(tier: Tier) -> Vec<(Vec<Vec<Req>>, Vec<usize>, u64, bool, bool)> {
                 continue;
             }
             for ord in interleavings(&[ev(a), ev(b)]) {
-                cases.push((vec![a.clone(), b.clone()], ord, 0, true, true));
+                cases.push((vec![a.clone(), b.clone()], ord, 0, true, 1));
+            }
+        }
+    }
+    // every hook point inside the store (before the writer lock and before each KeyDir shard access):
+    // 2 clients x 1 command over the full alphabet, from an empty store and from k = "0"; events per
+    // command: enter, 3 x continue (2 for GET), return
+    let evn = |p: &Vec<Req>| p.iter().map(|r| if matches!(r, Req::Get(_)) { 4 } else { 5 }).sum::<usize>();
+    let p1 = programs(&c11_alphabet(true), 1);
+    for a in &p1 {
+        for b in &p1 {
+            for ord in interleavings(&[evn(a), evn(b)]) {
+                cases.push((vec![a.clone(), b.clone()], ord.clone(), 1u64 << 31, false, 2));
+                cases.push((vec![a.clone(), b.clone()], ord, 1u64 << 31, false, 3));
+            }
+        }
+    }
+    if tier == Tier::Thorough {
+        // one client with two commands against one with one command, over {SET k 1, GET k, DEL k}
+        let p2: Vec<Vec<Req>> = programs(&c11_alphabet(false), 2).into_iter().filter(|p| p.len() == 2).collect();
+        let p1r = programs(&c11_alphabet(false), 1);
+        for a in &p2 {
+            for b in &p1r {
+                for ord in interleavings(&[evn(a), evn(b)]) {
+                    cases.push((vec![a.clone(), b.clone()], ord, 1u64 << 31, false, 3));
+                }
             }
         }
     }
@@ -705,13 +870,21 @@ fn c11_cases(tier: Tier) -> Vec<(Vec<Vec<Req>>, Vec<usize>, u64, bool, bool)> {
                         continue;
                     }
                     for ord in interleavings(&[a.len() * 2, b.len() * 2, c.len() * 2]) {
-                        cases.push((vec![a.clone(), b.clone(), c.clone()], ord, 1u64 << 31, false, false));
+                        cases.push((vec![a.clone(), b.clone(), c.clone()], ord, 1u64 << 31, false, 0));
                     }
                 }
             }
         }
     }
     cases
+}
+
+fn c11_run(dir: &Path, progs: &[Vec<Req>], ord: &[usize], mfs: u64, merge: bool, inner: u8) -> Result<String, V> {
+    match inner {
+        2 => c11_case_all(dir, progs, ord, false),
+        3 => c11_case_all(dir, progs, ord, true),
+        m => c11_case(dir, progs, ord, mfs, merge, m == 1),
+    }
 }
 
 pub fn c11(job: &Job, sh: &mut Shard, t0: Instant) {
@@ -739,10 +912,10 @@ pub fn c11(job: &Job, sh: &mut Shard, t0: Instant) {
             pre.push(*o);
             sh.states.insert(fnv(format!("{:?}{:?}{}{}", progs, pre, merge, inner).as_bytes()));
         }
-        match c11_case(&dir, &progs, &ord, mfs, merge, inner) {
+        match c11_run(&dir, &progs, &ord, mfs, merge, inner) {
             Ok(o) => sh.outcome(o),
             Err((c, msg)) if c == "MACHINERY" => sh.machinery_errors.push(format!("C11 {} {}", msg, case["programs_text"])),
-            Err((c, msg)) => match c11_case(&dir, &progs, &ord, mfs, merge, inner) {
+            Err((c, msg)) => match c11_run(&dir, &progs, &ord, mfs, merge, inner) {
                 Err((c2, _)) if c2 == c => sh.violate(Violation { class: format!("C11:{}", c), msg: format!("{} | programs {} order {:?} merge {} inner-gate {}", msg, case["programs_text"], ord, merge, inner), case }),
                 other => sh.machinery_errors.push(format!("C11 violation {} not reproduced ({:?}): {}", c, other.map_err(|e| e.0), msg)),
             },
@@ -799,8 +972,10 @@ fn pending_events(st: &CState) -> Vec<&'static str> {
     }
 }
 
-pub fn c16_case(dir: &Path, states: &[CState], order: &[usize]) -> Result<String, V> {
-    let maxc = if states.contains(&CState::Queued) { 1 } else { 8 };
+/// `at_limit`: the server runs with max_connections equal to the number of connections of the case,
+/// so the listener is parked waiting for a slot (not in accept) when the signal fires.
+pub fn c16_case(dir: &Path, states: &[CState], order: &[usize], at_limit: bool) -> Result<String, V> {
+    let maxc = if states.contains(&CState::Queued) { 1 } else if at_limit { states.len() } else { 8 };
     let mut srv = Srv::start(dir, &SrvCfg { max_connections: maxc, max_file_size: 1 << 31, gated: true }).map_err(mach)?;
     let nc = states.len();
     let mut socks: Vec<TcpStream> = vec![];
@@ -1103,7 +1278,20 @@ fn c16_states(tier: Tier) -> Vec<CState> {
     v
 }
 
-fn c16_cases(tier: Tier) -> Vec<(Vec<CState>, Vec<usize>)> {
+fn c16_cases(tier: Tier) -> Vec<(Vec<CState>, Vec<usize>, bool)> {
+    let base = c16_cases_base(tier);
+    let mut out = vec![];
+    for (s, o) in base {
+        let queued = s.contains(&CState::Queued);
+        out.push((s.clone(), o.clone(), false));
+        if !queued {
+            out.push((s, o, true));
+        }
+    }
+    out
+}
+
+fn c16_cases_base(tier: Tier) -> Vec<(Vec<CState>, Vec<usize>)> {
     let mut cases = vec![];
     let sts = c16_states(tier);
     for s in &sts {
@@ -1140,7 +1328,7 @@ pub fn c16(job: &Job, sh: &mut Shard, t0: Instant) {
     let cases = c16_cases(job.tier);
     let dir = job.scratch().join("store");
     let total = cases.len();
-    for (i, (states, ord)) in cases.into_iter().enumerate() {
+    for (i, (states, ord, at_limit)) in cases.into_iter().enumerate() {
         if i % job.nshards != job.shard {
             continue;
         }
@@ -1149,22 +1337,22 @@ pub fn c16(job: &Job, sh: &mut Shard, t0: Instant) {
             sh.notes.insert(format!("stopped (time cap or 6 violations in this shard) after {} of {} cases", i, total));
             return;
         }
-        let case = json!({"engine": "net", "kind": "c16", "states": states.iter().map(|s| format!("{:?}", s)).collect::<Vec<_>>(), "order": ord});
+        let case = json!({"engine": "net", "kind": "c16", "states": states.iter().map(|s| format!("{:?}", s)).collect::<Vec<_>>(), "order": ord, "at_limit": at_limit});
         job.progress(&case);
         sh.evaluations += 1;
         sh.transitions += ord.len() as u64 + states.len() as u64 + 1;
-        sh.nontrivial.insert(fnv(format!("{:?}{:?}", states, ord).as_bytes()));
+        sh.nontrivial.insert(fnv(format!("{:?}{:?}{}", states, ord, at_limit).as_bytes()));
         let mut pre = vec![];
-        sh.states.insert(fnv(format!("{:?}", states).as_bytes()));
+        sh.states.insert(fnv(format!("{:?}{}", states, at_limit).as_bytes()));
         for o in &ord {
             pre.push(*o);
-            sh.states.insert(fnv(format!("{:?}{:?}", states, pre).as_bytes()));
+            sh.states.insert(fnv(format!("{:?}{:?}{}", states, pre, at_limit).as_bytes()));
         }
-        match c16_case(&dir, &states, &ord) {
-            Ok(o) => sh.outcome(o),
+        match c16_case(&dir, &states, &ord, at_limit) {
+            Ok(o) => sh.outcome(format!("{}{}", o, if at_limit { " [at the connection limit]" } else { "" })),
             Err((c, msg)) if c == "MACHINERY" => sh.machinery_errors.push(format!("C16 {} {:?}", msg, states)),
-            Err((c, msg)) => match c16_case(&dir, &states, &ord) {
-                Err((c2, _)) if c2 == c => sh.violate(Violation { class: format!("C16:{}", c), msg: format!("{} | connection states {:?}, events after the signal (by connection) {:?}", msg, states, ord), case }),
+            Err((c, msg)) => match c16_case(&dir, &states, &ord, at_limit) {
+                Err((c2, _)) if c2 == c => sh.violate(Violation { class: format!("C16:{}", c), msg: format!("{} | connection states {:?}, events after the signal (by connection) {:?}, max_connections {}", msg, states, ord, if states.contains(&CState::Queued) { "1".to_string() } else if at_limit { format!("{} (= number of connections)", states.len()) } else { "8".to_string() }), case }),
                 other => sh.machinery_errors.push(format!("C16 violation {} not reproduced ({:?}): {}", c, other.map_err(|e| e.0), msg)),
             },
         }
@@ -1537,12 +1725,13 @@ pub fn replay(prop: &str, case: &Value, dir: &Path) -> Vec<Violation> {
         "c11" => {
             let progs: Vec<Vec<Req>> = case["programs"].as_array().map(|a| a.iter().map(|p| p.as_array().unwrap().iter().filter_map(Req::from_json).collect()).collect()).unwrap_or_default();
             let ord: Vec<usize> = case["order"].as_array().map(|a| a.iter().map(|x| x.as_u64().unwrap() as usize).collect()).unwrap_or_default();
-            push(c11_case(dir, &progs, &ord, case["max_file_size"].as_u64().unwrap_or(1 << 31), case["merge"].as_bool().unwrap_or(false), case["inner"].as_bool().unwrap_or(false)));
+            let inner = case["inner"].as_u64().map(|x| x as u8).unwrap_or(if case["inner"].as_bool().unwrap_or(false) { 1 } else { 0 });
+            push(c11_run(dir, &progs, &ord, case["max_file_size"].as_u64().unwrap_or(1 << 31), case["merge"].as_bool().unwrap_or(false), inner));
         }
         "c16" => {
             let states: Vec<CState> = case["states"].as_array().map(|a| a.iter().filter_map(|x| x.as_str().and_then(parse_cstate)).collect()).unwrap_or_default();
             let ord: Vec<usize> = case["order"].as_array().map(|a| a.iter().map(|x| x.as_u64().unwrap() as usize).collect()).unwrap_or_default();
-            push(c16_case(dir, &states, &ord));
+            push(c16_case(dir, &states, &ord, case["at_limit"].as_bool().unwrap_or(false)));
         }
         "c10" => {
             let bytes: Vec<u8> = case["bytes"].as_array().map(|a| a.iter().map(|x| x.as_u64().unwrap() as u8).collect()).unwrap_or_default();
@@ -1579,7 +1768,7 @@ pub fn report_meta(prop: &str, tier: Tier, common: Vec<String>) -> (String, Valu
             common,
         ),
         "C16" => (
-            format!("1 and 2 connections, each driven into one of the holdable states {{idle before any command, idle after an acknowledged command, having sent each strict prefix of a SET request (every truncation point), command held before the store, command held after the store call, two pipelined requests with the first held, an 8 MiB reply being written to a client that does not read, waiting for a slot behind another connection (max_connections 1)}}; then the shutdown signal fires; then the remaining release / resume events run in every order ({} cases). Oracle: run() has not returned while a command is in flight and returns within 6 s once everything is released; a command in flight is neither answered nor torn before it is released and is answered completely afterwards; every client's byte stream parses as complete replies followed by end of stream; acknowledged commands are in the store afterwards; an incomplete request changes nothing.", c16_cases(tier).len()),
+            format!("1 and 2 connections, each driven into one of the holdable states {{idle before any command, idle after an acknowledged command, having sent each strict prefix of a SET request (every truncation point), command held before the store, command held after the store call, two pipelined requests with the first held, an 8 MiB reply being written to a client that does not read, waiting for a slot behind another connection (max_connections 1), a client that never pauses}}, with max_connections 8 and again with max_connections equal to the number of connections (the listener is then parked waiting for a slot, not accepting); then the shutdown signal fires; a client that connects after the signal is never served; then the remaining release / resume events run in every order ({} cases). Oracle: run() has not returned while a command is in flight and returns within 6 s once everything is released; a command in flight is neither answered nor torn before it is released and is answered completely afterwards; every client's byte stream parses as complete replies followed by end of stream; acknowledged commands are in the store afterwards; an incomplete request changes nothing.", c16_cases(tier).len()),
             json!({"cases": c16_cases(tier).len(), "states": c16_states(tier).iter().map(|s| format!("{:?}", s)).collect::<Vec<_>>()}),
             common,
         ),
